@@ -53,6 +53,9 @@ pub struct GraphOpts {
     /// commands above a dependency line may read the dependency's output (never where that
     /// path can be a link to /dev/full: the first pass would read it for ever)
     pub read_above: bool,
+    /// an empty directory that a command of some source removes: a recursive scan may find it
+    /// gone (the run then fails with a reported error; it must still return)
+    pub scratch_dir: bool,
 }
 
 impl Default for GraphOpts {
@@ -73,6 +76,7 @@ impl Default for GraphOpts {
             mega: false,
             symlinks: false,
             read_above: true,
+            scratch_dir: false,
         }
     }
 }
@@ -552,6 +556,25 @@ pub fn gen_graph_project(rng: &mut Rng, o: &GraphOpts, n: usize, edges: &BTreeSe
             _ => "-TXTPP#run printf 'l1\\nl2\\nl3\\n'".to_string(),
         };
         p.add_file("oneline.txt.txtpp", B(text.into_bytes()));
+    }
+    if o.scratch_dir && rng.chance(1, 10) {
+        p.add_dir("scratch_area");
+        p.add_dir("scratch_area/inner");
+        let a = crate::spec::analyze(&p);
+        if a.n() > 0 {
+            let s = &a.sources[rng.below(a.n())];
+            if let Some(d) = p.file(&s.path).cloned() {
+                let t = d.lossy();
+                let eol = crate::spec::line_ending(&t);
+                let mut t2 = t.clone();
+                if !t2.is_empty() && !t2.ends_with('\n') {
+                    t2.push_str(eol);
+                }
+                let target = rel_path(&s.dir, "scratch_area");
+                t2.push_str(&format!("~{eol}-TXTPP#run rm -rf '{target}'; printf 'cleared\\n'{eol}after clearing{eol}"));
+                p.set_file(&s.path, B(t2.into_bytes()));
+            }
+        }
     }
     if o.wide && rng.chance(1, 10) {
         // usually a few dozen, now and then several hundred (more than a 256-slot queue holds)
